@@ -46,7 +46,7 @@ def run(ctx):
     # Encode / Decode impls delegate to the methods above
     ctx.rules_run.append('F-FLOAT.impl: Encode/Decode for f32/f64 reach exactly Encoder::f32/f64 / Decoder::f32/f64')
     for t in ('f32', 'f64'):
-        for path, want in (("<%s as minicbor::encode::Encode<C>>::encode" % t, l1.ENC + t), ("<%s as minicbor::decode::Decode<'b, C>>::decode" % t, DEC + t)):
+        for path, want in (("<%s as minicbor::encode::Encode<C>>::encode" % t, l1.ENC + t), ("<%s as minicbor::decode::Decode<'_, C>>::decode" % t, DEC + t)):
             inst = prog.one(path)
             if inst is None:
                 ctx.fail_closed('F-FLOAT.impl', '%s not found' % path)
